@@ -18,10 +18,10 @@ PANELS = [
      ['EVN||2020', 'PID|||1||S', 'NK1|1|N^M', 'PV1||I', 'IN1|1|A|B', 'ORC|NW', 'ZZZ|1|2', 'OBX|1|ST|A||v||||||F',
       'PID|||1~2||S^T&U~V', 'AL1|1', 'DG1|1||C', 'PR1|1||P', 'ROL|1|AD|R', 'IN2|1', 'NTE|1']),
     ('MSH|^~\\&|A|B|||2020||ORU^R01|1|P|2.3',
-     ['PID|||1', 'OBR|1', 'OBX|1|NM|A||1.5', 'NTE|1', 'ORC|RE', 'ZZZ|1|2', 'PV1||I', 'EVN||2020', 'DSC|1', 'OBX|2|ST|B||w', 'NK1|1',
+     ['PID|||1', 'OBR|1', 'OBX|1|NM|A||1.5', 'NTE|1', 'ORC|RE', 'ZZZ|1|2', 'PV1||I', 'EVN||2020', 'DSC|1', 'OBX|2|CE|B||3092008^^SCT', 'NK1|1',
       'PID|||2||S||||||||555-1234^PRN']),      # XTN-1 is the base datatype TN in 2.3
     ('MSH|^~\\&|A|B|||2020||ZAA^Z01^ZAA_Z01|1|P|2.5',
-     ['EVN||2020', 'PID|||1||S', 'ZZZ|1|2', 'ZAB|x^y', 'OBX|1|ST|A||v', 'NK1|1']),
+     ['EVN||2020', 'PID|||1||S', 'ZZZ|1|2', 'ZAB|x^y', 'OBX|1|CE|A||^v&w^^x', 'NK1|1']),
     ('MSH|^~\\&|A|B|||2020||OML^O33^OML_O33|1|P|2.7',
      ['PID|||1||S', 'PV1||I', 'SPM|1', 'ORC|NW', 'OBR|1', 'OBX|1|ST|A||v', 'TQ1|1', 'SAC|1', 'ZZZ|1|2', 'NTE|1', 'EVN||2020', 'SPM|2',
       'PID|||2||S||||||||^PRN^PH^^1^555^1234']),      # XTN-5..7 are the base datatype SNM from 2.7
